@@ -154,3 +154,52 @@ pub struct ReplayFile {
     pub event_digest: String,
     pub case: Case,
 }
+
+/// Identity of an item chunk independent of the file it lives in and of `mod` wrapping/indentation
+/// (C06 re-partitions move items between files and modules).
+pub fn item_key(chunk: &str) -> String {
+    let mut lines: Vec<&str> = chunk.lines().map(|l| l.trim()).filter(|l| !l.is_empty()).collect();
+    if lines.first().map(|l| l.starts_with("pub mod ")).unwrap_or(false) {
+        lines.remove(0);
+        if lines.first() == Some(&"use super::*;") {
+            lines.remove(0);
+        }
+        if lines.last() == Some(&"}") {
+            lines.pop();
+        }
+    }
+    lines.join("\n")
+}
+
+/// Names of the #[typeshare]-annotated items defined in a tree (text scan of the generator's chunks).
+pub fn annotated_item_names(tree: &Tree) -> Vec<String> {
+    let mut out = vec![];
+    for f in tree {
+        if f.kind != FileKind::Text {
+            continue;
+        }
+        for c in &f.chunks {
+            if !c.contains("#[typeshare") {
+                continue;
+            }
+            for line in c.lines() {
+                let t = line.trim();
+                for kw in ["pub struct ", "pub enum ", "pub type "] {
+                    if let Some(rest) = t.strip_prefix(kw) {
+                        let name: String = rest.chars().take_while(|c| c.is_alphanumeric() || *c == '_').collect();
+                        if !name.is_empty() {
+                            out.push(name);
+                        }
+                    }
+                }
+            }
+        }
+    }
+    out
+}
+
+pub fn has_duplicate_names(tree: &Tree) -> bool {
+    let mut n = annotated_item_names(tree);
+    n.sort();
+    n.windows(2).any(|w| w[0] == w[1])
+}
